@@ -68,48 +68,58 @@ func (p *WorkerPool) Start() {
 	// Launch worker goroutines
 	p.wg.Add(p.maxWorkers)
 	for i := 0; i < p.maxWorkers; i++ {
-		go p.worker(i)
+		go p.worker(i, p.ctx, p.taskQueue)
 	}
 
 	p.logger.logger.Printf("Worker pool started with %d workers", p.maxWorkers)
 }
 
-// worker runs in a goroutine and processes tasks from the queue
-func (p *WorkerPool) worker(id int) {
+// worker runs in a goroutine and processes tasks from the queue it was
+// started with. When the pool is stopped it drains what is still queued, so
+// that every accepted task is executed and its submitter gets the result.
+func (p *WorkerPool) worker(id int, ctx context.Context, queue chan Task) {
 	defer p.wg.Done()
 
 	for {
 		select {
-		case <-p.ctx.Done():
-			// Worker pool is shutting down
+		case <-ctx.Done():
+			// Worker pool is shutting down: Stop closes the queue right after
+			// cancelling, so this loop ends once the remaining tasks are done.
+			for task := range queue {
+				p.runTask(task)
+			}
 			return
-		case task, ok := <-p.taskQueue:
+		case task, ok := <-queue:
 			if !ok {
 				// Task queue has been closed
 				return
 			}
+			p.runTask(task)
+		}
+	}
+}
 
-			// Execute the task
-			atomic.AddInt32(&p.activeWorkers, 1)
-			result := task.Execute()
-			atomic.AddInt32(&p.activeWorkers, -1)
+// runTask executes one task and hands the result to its submitter.
+func (p *WorkerPool) runTask(task Task) {
+	// Execute the task
+	atomic.AddInt32(&p.activeWorkers, 1)
+	result := task.Execute()
+	atomic.AddInt32(&p.activeWorkers, -1)
 
-			// R14/R33: Non-blocking send to avoid deadlock if receiver is gone
-			if task.ResultChan != nil {
-				select {
-				case task.ResultChan <- result:
-				default:
-				}
-			}
+	// R14/R33: Non-blocking send to avoid deadlock if receiver is gone
+	if task.ResultChan != nil {
+		select {
+		case task.ResultChan <- result:
+		default:
+		}
+	}
 
-			// Calculate and log task duration if we have a valid start time
-			if !task.startTime.IsZero() {
-				duration := time.Since(task.startTime)
-				// Only log long-running tasks
-				if duration > 100*time.Millisecond {
-					p.logger.logger.Printf("Task completed in %v", duration)
-				}
-			}
+	// Calculate and log task duration if we have a valid start time
+	if !task.startTime.IsZero() {
+		duration := time.Since(task.startTime)
+		// Only log long-running tasks
+		if duration > 100*time.Millisecond {
+			p.logger.logger.Printf("Task completed in %v", duration)
 		}
 	}
 }
